@@ -31,6 +31,8 @@ type LCase struct {
 	Faults   map[string]string `json:"faults"`    // absolute path -> errno on open
 	MaxDepth int               `json:"max_depth"` // import depth limit
 	Hostlike int               `json:"hostlike_imports,omitempty"`
+	// RootSpell: how an explicit root is written on the command line ("" = as Root)
+	RootSpell string `json:"root_spelling,omitempty"`
 }
 
 type lfile struct {
@@ -161,6 +163,9 @@ func GenLCase(seed uint64) *LCase {
 		c.MaxDepth = r.Range(1, 3)
 	}
 	c.Hostlike = hostlike
+	if c.Explicit && r.Chance(0.25) {
+		c.RootSpell = SpellRoot(r, c.Root)
+	}
 	return c
 }
 
@@ -295,6 +300,10 @@ func RunLCaseExec(c *LCase, cnt core.Counters, exec Exec, allow []string) (*LRes
 		root := ""
 		if c.Explicit {
 			root = c.Root
+			if c.RootSpell != "" {
+				root = c.RootSpell
+				cnt.Inc("lcases_with_unclean_root_spelling")
+			}
 		}
 		if exec != nil {
 			apps, err := exec(disk, root, c.Module, c.MaxDepth)
